@@ -199,12 +199,63 @@ structure Geo (β : Type) where
   shape : List Nat
   origin : List β
   rate : List Nat      -- numerators over the caller's common denominator
-deriving Repr
+deriving Repr, DecidableEq
 
 /-- `ret = self.copy(); ret.data = zoom(...)/fourier crop; ret.sampling_rate = new` -/
 def resample {β : Type} (g : Geo β) (newRate : List Nat) : Geo β :=
   ⟨List.zipWith (fun (n : Nat) (ab : Nat × Nat) => resampleLen n ab.1 ab.2) g.shape (List.zip g.rate newRate),
    g.origin, newRate⟩
+
+/-! ## histories of the geometry (extents, origin, rate) that may contain resampling
+
+Voxel values are interpolated by `resample` and not followed; extents, origin and rate are.  Origin and
+rates are integers over one common unit (the harness uses 2⁻¹²). -/
+
+inductive GOp where
+  | resample (newRate : List Nat)
+  | box (b : Box)      -- `adjust_box(b)`; `pad` and trimming enter as the box they hand to `adjust_box`
+  | copy
+deriving Repr
+
+/-- one operation on the geometry.  `box`: extents `max (stop - start) 0` (stops ≥ 0, `adjustBox_extents`),
+`origin - (-start)·rate` with the rate in force, rate kept. -/
+def geoStep (g : Geo Int) : GOp → Geo Int
+  | .resample nr => resample g nr
+  | .box b =>
+      ⟨b.map (fun p => (max (p.2 - p.1) 0).toNat),
+       List.zipWith (fun (or : Int × Nat) (p : Int × Int) => or.1 + p.1 * (or.2 : Int)) (List.zip g.origin g.rate) b,
+       g.rate⟩
+  | .copy => g
+
+def geoRun (g : Geo Int) : List GOp → Geo Int
+  | [] => g
+  | op :: ops => geoRun (geoStep g op) ops
+
+/-- all intermediate geometries (for the harness) -/
+def geoStates (g : Geo Int) : List GOp → List (Geo Int)
+  | [] => []
+  | op :: ops => geoStep g op :: geoStates (geoStep g op) ops
+
+/-- physical coordinate `origin + index·rate` per axis (indices may be negative: a voxel cut away) -/
+def gphys (g : Geo Int) (idx : List Int) : List Int :=
+  List.zipWith (fun (or : Int × Nat) (i : Int) => or.1 + i * (or.2 : Int)) (List.zip g.origin g.rate) idx
+
+/-- index, in the grid the operations started from, of the position `idx` of the grid they end in
+(box operations and copies; a resampling starts a new grid) -/
+def gtrace : List GOp → List Int → List Int
+  | [], idx => idx
+  | .box b :: ops, idx => List.zipWith (fun (i : Int) (p : Int × Int) => i + p.1) (gtrace ops idx) b
+  | _ :: ops, idx => gtrace ops idx
+
+def GOp.isResample : GOp → Bool
+  | .resample _ => true
+  | _ => false
+
+/-- the rate in force after a history: the one asked for by the last resampling, else the initial one -/
+def lastRate (r0 : List Nat) : List GOp → List Nat
+  | [] => r0
+  | .resample nr :: ops => lastRate nr ops
+  | _ :: ops => lastRate r0 ops
 
 /-! ## histories -/
 
